@@ -23,10 +23,11 @@ sys.path.insert(0, os.path.join(C.ROOT, "tools"))
 import translate_rng  # noqa: E402
 from cxx2lean import Refuse  # noqa: E402
 
+# the machine is shared: at most VERIF_JOBS (default 4) compile jobs / concurrently running processes while this
+# check runs (vlib.common.NPROC is restored afterwards)
+JOBS = max(1, min(C.NPROC, int(os.environ.get("VERIF_JOBS", "4"))))
+
 U64 = (1 << 64) - 1
-CONFIGS = ["mep-std", "mep-alps", "mep-dss", "mep-holdout", "ga-std", "ga-alps", "de"]
-REPEATABLE = {"ga-std", "ga-alps", "de"}     # i_mep dumps contain opcodes, which are numbered by a
-                                             # process-wide counter: an in-process second problem is renamed
 
 
 def hexs(s):
@@ -93,6 +94,255 @@ def gen_lines(rng, tier):
         L.append("between %d %d %d %d" % (rng.below(1 << 32), a, b, 200 if not big else 2000))
     for _ in range(6 if not big else 40):
         L.append("mixed %d %d" % (rng.below(1 << 32), 4000))
+    # ---- vita::random on top of the engine: integral / floating between, sup, in, element, ring, boolean
+    import struct
+
+    def dbits(x):
+        return struct.unpack("<Q", struct.pack("<d", x))[0]
+
+    def state_with_output(t):
+        """explicit engine state whose next output is t (the ** scrambler inverted)"""
+        inv5, inv9 = 14757395258967641293, 10248191152060862009
+        y = (t * inv9) & U64
+        y = ((y >> 7) | (y << 57)) & U64
+        return "st:%d:%d:%d:%d" % (rng.next(), (y * inv5) & U64, rng.next(), rng.next())
+
+    def eng():
+        m = rng.below(5)
+        if m == 0:           # rare events: the largest / smallest canonical values
+            return state_with_output(rng.choice([U64, U64 - 1023, U64 - 1024, U64 - 1025, 0, 1, 2047, 1 << 63,
+                                                 (1 << 63) - 1, U64 - rng.below(4096)]))
+        if m == 1:
+            return "st:%d:%d:%d:%d" % tuple(rng.next() for _ in range(4))
+        return str(rng.below(1 << 32))
+
+    cnt = 100 if not big else 1000
+    dmax = 1.7976931348623157e308
+    dranges = [(0.0, 1.0), (1.0, 2.0), (-1.0, 1.0), (1.0, 1.0000000000000002), (-1e16, 1.0), (1e300, dmax),
+               (-dmax, dmax), (5e-324, 1e-323), (-5.0, -4.999999999), (4503599627370496.0, 9007199254740992.0),
+               (9007199254740992.0, 9007199254740994.0), (-1.5, 2.5), (0.0, 5e-324), (-1e-300, 1e-300),
+               (0.1, 0.30000000000000004), (-3.0, 1e16), (2.0, 4.0), (-2.0, -1.0)]
+    for _ in range(20 if not big else 200):
+        a = (rng.next() / float(1 << 64) - 0.5) * 10 ** rng.between(-20, 20)
+        w = rng.next() / float(1 << 64) * 10 ** rng.between(-25, 20)
+        if a + w > a:
+            dranges.append((a, a + w))
+    for a, b in dranges:
+        for _ in range(2):
+            L.append("betd %s %d %d %d" % (eng(), dbits(a), dbits(b), cnt))
+    for pv in [0.0, 1.0, 0.5, 0.3, 2.0 ** -64, 1 - 2.0 ** -53, 2.0 ** -53, 0.999] + \
+            [rng.next() / float(1 << 64) for _ in range(8 if not big else 60)]:
+        L.append("bool %s %d %d" % (eng(), dbits(pv), cnt))
+    for n in [2, 3, 7, 100, 65537, (1 << 31) + 5, (1 << 32) - 1] + [rng.between(2, 1 << rng.between(2, 32)) for _ in range(10)]:
+        for width in {1, 2, 3, max(1, n - 1), n, min(n + 1, U64 >> 32), min(2 * n, (1 << 32) - 1), rng.between(1, n + 1)}:
+            L.append("ring %s %d %d %d %d" % (eng(), rng.below(n), width, n, cnt))
+    for b in [1, 2, 3, 1 << 31, (1 << 32) - 1] + [rng.between(1, 1 << 32) for _ in range(10 if not big else 100)]:
+        L.append("supu %s %d %d" % (eng(), b, cnt))
+    for a, b in [(0, U64), (1 << 63, U64), (0, 1), (U64 - 1, U64), (5, 6), (0, 1 << 63), (0, (1 << 63) + 1)] + \
+            [tuple(sorted((rng.next(), rng.next()))) for _ in range(10 if not big else 100)]:
+        if a < b:
+            L.append("betu64 %s %d %d %d" % (eng(), a, b, cnt))
+    for a, b in ranges[:12]:
+        L.append("inr %s %d %d %d" % (eng(), a, b, cnt))
+    for size in [1, 2, 3, 10, 1000, 65536] + [rng.between(1, 5000) for _ in range(6)]:
+        L.append("elem %s %d %d" % (eng(), size, cnt))
+    # operator== against the future stream: equal states, states that differ in one word / one bit
+    for _ in range(80 if not big else 600):
+        ws = [rng.next() if rng.below(4) else rng.choice([0, 1, U64, 1 << 63]) for _ in range(4)]
+        vs = list(ws)
+        m = rng.below(4)
+        if m == 1:
+            vs[rng.below(4)] ^= 1 << rng.below(64)
+        elif m == 2:
+            vs[rng.below(4)] = rng.next()
+        elif m == 3:
+            i, j = rng.below(4), rng.below(4)
+            vs[i], vs[j] = vs[j], vs[i]
+        L.append("geq st:%s st:%s" % (":".join(map(str, ws)), ":".join(map(str, vs))))
+    for _ in range(10):
+        a, b = rng.choice(seeds), rng.choice(seeds)
+        L.append("geq %s %s" % (a, b))
+    return L
+
+
+# ---- (a2) stream configurations ---------------------------------------------------------------------
+WS = [32, 9, 10, 11, 12, 13]                      # std::isspace in the classic locale
+
+
+def cfg_token(c):
+    return "%d:%d:%d:%d:%d:%d:%d:%d:%s:%s" % (
+        c["base"], c["showbase"], c["upper"], c["showpos"], c["width"], c["fill"], c["adjust"], c["skipws"],
+        "-" if c["sep"] is None else str(c["sep"]),
+        "-" if c["sep"] is None or not c["grouping"] else "".join("%02x" % g for g in c["grouping"]))
+
+
+def cfg_parse(tok):
+    f = tok.split(":")
+    sep = None if f[8] == "-" else int(f[8])
+    return {"base": int(f[0]), "showbase": int(f[1]), "upper": int(f[2]), "showpos": int(f[3]), "width": int(f[4]),
+            "fill": int(f[5]), "adjust": int(f[6]), "skipws": int(f[7]), "sep": sep,
+            "grouping": [] if sep is None or f[9] == "-" else list(bytes.fromhex(f[9]))}
+
+
+def cfg_useg(c):
+    return c["sep"] is not None and bool(c["grouping"]) and 0 < c["grouping"][0] < 127
+
+
+def cfg_words(c):
+    w = ["dec" if c["base"] == 10 else {16: "hex", 8: "oct", 0: "no basefield"}[c["base"]]]
+    if c["width"]:
+        w.append("width %d fill chr(%d) %s" % (c["width"], c["fill"], ["left", "right", "internal", "no adjustfield"][c["adjust"]]))
+    if not c["skipws"]:
+        w.append("noskipws")
+    if c["sep"] is not None:
+        w.append("numpunct thousands_sep chr(%d) grouping %s" % (c["sep"], c["grouping"]))
+    else:
+        w.append("classic locale")
+    return ", ".join(w)
+
+
+def cfg_gs(c):
+    """the grouping string as the shipped libstdc++ sees it (a NUL byte ends it)"""
+    g = list(c["grouping"])
+    return g[:g.index(0)] if 0 in g else g
+
+
+def cfg_class(c):
+    """`demanded` when the property demands the round trip under this stream configuration (the Lean
+    predicate `Demanded`, design/C07.md), otherwise the first dimension that leaves the class."""
+    if c["base"] != 10:
+        return "outside:basefield"
+    if not c["skipws"]:
+        return "outside:noskipws"
+    if c["width"] and c["fill"] not in WS:
+        return "outside:fill"
+    if cfg_useg(c) and (48 <= c["sep"] <= 57 or c["sep"] in WS):
+        return "outside:separator"
+    return "demanded"
+
+
+def py_group(digits, sep, grouping):
+    """std::__add_grouping"""
+    if not grouping or not 0 < grouping[0] < 127:
+        return digits
+    out, idx = [], 0
+    while 0 < grouping[idx] < 127 and len(digits) > grouping[idx]:
+        out.insert(0, digits[-grouping[idx]:])
+        digits = digits[:-grouping[idx]]
+        if idx < len(grouping) - 1:
+            idx += 1
+    return chr(sep).join([digits] + out)
+
+
+def adv_word(rng):
+    m = rng.below(9)
+    if m == 0:
+        return rng.choice([0, 1, 9, 10, 99, 100, 999, 1000, 1001, 123456, U64, 1 << 63, 10 ** 19, 10 ** 19 - 1])
+    if m == 1:
+        k = rng.between(1, 20)
+        return min(U64, 10 ** k - rng.below(2))
+    if m == 2:
+        return rng.below(10 ** rng.between(1, 20)) & U64
+    if m <= 4:
+        return rng.between(10 ** 19, 1 << 64)
+    return rng.next()
+
+
+def gen_cfg(rng, kind):
+    c = {"base": 10, "showbase": rng.below(2), "upper": rng.below(2), "showpos": rng.below(2), "width": 0,
+         "fill": 32, "adjust": rng.below(4), "skipws": 1, "sep": None, "grouping": []}
+    seps = [44, 46, 39, 95, 59, 58, 47, 34, 42, 97, 120, 88, 45, 43, 101, 126, 127, 1, 160, 255, 102, 70]
+    groupings = [[3], [3], [3], [1], [2], [4], [3, 2], [1, 2, 3], [126], [20], [3, 0], [3, 127], [3, 255],
+                 [2, 1], [5, 4, 3, 2, 1], [19], [7, 200], [3, 0, 2], [2, 3, 0]]
+    if kind in ("group", "any") or (kind == "mix" and rng.below(2)):
+        c["sep"] = rng.choice(seps)
+        c["grouping"] = rng.choice(groupings) if rng.below(8) else rng.choice([[], [0], [127], [255, 3]])
+    if kind in ("pad", "any") or (kind == "mix" and rng.below(2)):
+        c["width"] = rng.choice([1, 5, 19, 20, 21, 26, 27, 30, 83, 84, 90, rng.between(1, 100)])
+        c["fill"] = rng.choice(WS)
+    if kind == "any":            # anything: leaves the demanded class in one or more dimensions
+        m = rng.below(6)
+        if m == 0:
+            c["base"] = rng.choice([16, 16, 8, 0])
+        elif m == 1:
+            c["skipws"] = 0
+        elif m == 2:
+            c["width"] = rng.between(2, 60)
+            c["fill"] = rng.choice([42, 48, 53, 120, 45, 43, 44, 46, 0, 255])
+        elif m == 3:
+            c["sep"] = rng.choice(WS + [48, 49, 57])
+            c["grouping"] = rng.choice([[3], [1], [3, 2]])
+        elif m == 4:
+            c["base"] = rng.choice([16, 8, 0])
+            c["width"] = rng.between(2, 60)
+            c["fill"] = rng.choice([42, 48, 32, 102])
+            c["adjust"] = 2
+    return c
+
+
+def gen_cfg_lines(rng, tier, meta=None):
+    """round trips under stream configurations the engine does not fix (requests `cfgrt`) and loads of
+    well-formed / damaged texts under such configurations (`cfgload`)."""
+    meta = {} if meta is None else meta
+    big = tier != "quick"
+    L = []
+    seeds = ["0", "1", "default", str(U64), "2", "4294967295"] + [str(rng.next()) for _ in range(20)]
+
+    def engine():
+        m = rng.below(4)
+        if m == 0:
+            return rng.choice(seeds), rng.choice([0, 1, 2, 3, 5, 100]) if rng.below(2) else rng.below(3000)
+        if m == 1:               # every word >= 10^19 (20 digits: the longest text)
+            return "st:" + ":".join(str(rng.between(10 ** 19, 1 << 64)) for _ in range(4)), 0
+        return "st:" + ":".join(str(adv_word(rng)) for _ in range(4)), rng.choice([0, 0, 1])
+
+    plan = [("plain", 60), ("group", 500), ("pad", 200), ("mix", 300), ("any", 500)]
+    for kind, n in plan:
+        for _ in range(n if not big else 6 * n):
+            c = gen_cfg(rng, kind)
+            (a, k), (b, j) = engine(), engine()
+            ln = "cfgrt %s %d %s %d %d %s" % (a, k, b, j, rng.choice([1, 8, 64]), cfg_token(c))
+            meta[ln] = cfg_class(c)
+            L.append(ln)
+    # loads under a configuration: the text a conforming writer produces, then damaged
+    for _ in range(500 if not big else 4000):
+        c = gen_cfg(rng, rng.choice(["group", "group", "mix", "any"]))
+        ws = [adv_word(rng) for _ in range(4)]
+        fmt = {16: "%x", 8: "%o"}.get(c["base"], "%d")
+        toks = [py_group(fmt % w, c["sep"], cfg_gs(c)) if cfg_useg(c) else fmt % w for w in ws]
+        m = rng.below(12)
+        i = rng.below(4)
+        t = toks[i]
+        sepc = chr(c["sep"]) if c["sep"] is not None else ","
+        if m == 0:
+            t = sepc + t
+        elif m == 1:
+            t = t + sepc
+        elif m == 2 and sepc in t:
+            t = t.replace(sepc, sepc + sepc, 1)
+        elif m == 3 and sepc in t:
+            t = t.replace(sepc, "", 1)
+        elif m == 4 and sepc in t:
+            q = t.index(sepc)
+            t = t[:q - 1] + sepc + t[q - 1] + t[q + 1:] if q > 0 else t
+        elif m == 5:
+            t = rng.choice(["+", "-", "+-", "0", "00", "0x", "0X", "x", ".", " "]) + t
+        elif m == 6:
+            t = t[:rng.below(len(t) + 1)]
+        elif m == 7:
+            q = rng.below(len(t))
+            t = t[:q] + rng.choice("0123456789abcdefxX,.+- ") + t[q + 1:]
+        elif m == 8:
+            t = py_group(str(rng.between(1 << 64, 1 << 70)), c["sep"], cfg_gs(c)) if cfg_useg(c) else t + "0"
+        elif m == 9:
+            t = t + rng.choice(["x", ".", ".5", "e3", "f", "8", sepc + "1"])
+        toks[i] = t
+        text = rng.choice(["", "", " ", "\n"]) + rng.choice([" ", " ", "\n", "\t", "  "]).join(toks)
+        text += rng.choice(["", "", " ", "\n", " 7"])
+        ln = "cfgload %s %d %s %s %d" % (rng.choice(seeds), rng.choice([0, 3]), cfg_token(c),
+                                         "".join("%02x" % ord(ch) for ch in text) or "-", 2)
+        meta[ln] = "load"
+        L.append(ln)
     return L
 
 
@@ -106,6 +356,10 @@ SCAN = [
     ("pointer-keyed ordered container", r"std::(?:multi)?(?:map|set)\s*<\s*(?:const\s+)?[\w:]+\s*\*", "soft"),
     ("address as a number", r"uintptr_t|reinterpret_cast<\s*(?:std::)?(?:size_t|u?intptr_t|unsigned long)", "soft"),
     ("thread_local / static mutable state in a draw path", r"\bthread_local\b", "soft"),
+    # also textual (template code that no instantiation of the scan TU reaches is invisible to the AST matchers)
+    ("threads / tasks / parallel algorithms",
+     r"std::j?thread\b|std::async\b|hardware_concurrency|std::execution::|#\s*pragma\s+omp|<execution>|<thread>|<future>", "hard"),
+    ("hash / order of addresses", r"std::hash<[^<>]*\*\s*>|std::less<[^<>]*\*\s*>|std::owner_less", "soft"),
 ]
 # occurrences that were read and judged harmless for this property (file, tag)
 ALLOW = {
@@ -137,6 +391,181 @@ def source_scan():
                             hits.append({"file": rel, "line": i, "what": tag, "severity": sev,
                                          "allowed": (rel, tag) in ALLOW, "text": ln.strip()[:120]})
     return hits
+
+
+# ---- (c1) AST scan: clang-query / clang-tidy over ONE translation unit made of every .cc of src/utility and
+#      src/kernel plus the whole-run harness (which instantiates the search / evolution / strategy templates)
+AST_QUERIES = [
+    ("pointer relational comparison", "hard",
+     'binaryOperator(hasAnyOperatorName("<", ">", "<=", ">="), hasLHS(hasType(pointerType())), '
+     'hasRHS(hasType(pointerType())), unless(isExpansionInSystemHeader()), unless(isExpansionInFileMatching("/harness/")))'),
+    ("mutable object with static or thread storage duration", "hard",
+     'varDecl(hasGlobalStorage(), unless(hasType(isConstQualified())), unless(isExpansionInSystemHeader()), '
+     'unless(isExpansionInFileMatching("/harness/")))'),
+    ("pointer-keyed associative container", "hard",
+     'declaratorDecl(hasType(hasUnqualifiedDesugaredType(recordType(hasDeclaration(classTemplateSpecializationDecl('
+     'hasAnyName("::std::map", "::std::set", "::std::multimap", "::std::multiset", "::std::unordered_map", '
+     '"::std::unordered_set", "::std::unordered_multimap", "::std::unordered_multiset"), '
+     'hasTemplateArgument(0, refersToType(pointerType()))))))), unless(isExpansionInSystemHeader()), '
+     'unless(isExpansionInFileMatching("/harness/")))'),
+    ("hash of a pointer", "hard",
+     'cxxOperatorCallExpr(hasOverloadedOperatorName("()"), hasArgument(0, hasType(hasUnqualifiedDesugaredType(recordType('
+     'hasDeclaration(classTemplateSpecializationDecl(hasName("::std::hash"), hasTemplateArgument(0, '
+     'refersToType(pointerType())))))))), unless(isExpansionInSystemHeader()))'),
+    ("pointer converted to an integer", "hard",
+     'explicitCastExpr(hasDestinationType(isInteger()), hasSourceExpression(hasType(pointerType())), '
+     'unless(isExpansionInSystemHeader()), unless(isExpansionInFileMatching("/harness/")))'),
+    ("thread / async", "hard",
+     'expr(anyOf(callExpr(callee(functionDecl(hasAnyName("::std::async", "::std::thread::hardware_concurrency")))), '
+     'cxxConstructExpr(hasType(hasUnqualifiedDesugaredType(recordType(hasDeclaration(cxxRecordDecl(hasAnyName('
+     '"::std::thread", "::std::jthread")))))))), unless(isExpansionInSystemHeader()), '
+     'unless(isExpansionInFileMatching("/harness/")))'),
+    ("parallel algorithm (execution policy argument)", "hard",
+     'callExpr(hasArgument(0, hasType(hasUnqualifiedDesugaredType(recordType(hasDeclaration(cxxRecordDecl('
+     'matchesName("::std::execution::.*policy"))))))), unless(isExpansionInSystemHeader()))'),
+    ("randomness / time / process identity outside random::engine", "hard",
+     'expr(anyOf(callExpr(callee(functionDecl(hasAnyName("::rand", "::srand", "::random", "::drand48", "::time", "::clock", '
+     '"::getpid", "::gettimeofday", "::clock_gettime", "::std::rand", "::std::srand", "::std::time", "::std::clock")))), '
+     'cxxConstructExpr(hasType(hasUnqualifiedDesugaredType(recordType(hasDeclaration(cxxRecordDecl(hasName('
+     '"::std::random_device")))))))), unless(isExpansionInSystemHeader()), unless(isExpansionInFileMatching("/harness/")))'),
+]
+# every hit of today's tree, read and judged (key: tag, file, whitespace-normalised source line) -> why harmless
+AST_REVIEWED = {
+    ("pointer relational comparison", "utility/small_vector.tcc", "for (; size_ < capacity_; ++size_)"):
+        "two pointers into the same buffer of one small_vector (loop bound), not an ordering of objects",
+    ("mutable object with static or thread storage duration", "kernel/compatibility_patch.h", "static termios oldt, newt;"):
+        "terminal mode saved / restored around a run (keyboard polling); never read by the evolution",
+    ("mutable object with static or thread storage duration", "kernel/log.h", "static level reporting_level;"):
+        "log verbosity: output only",
+    ("mutable object with static or thread storage duration", "kernel/log.h", "static std::unique_ptr<std::ostream> stream;"):
+        "log file stream: output only",
+    ("mutable object with static or thread storage duration", "kernel/log.cc", "log::level log::reporting_level = log::lALL;"):
+        "definition of log::reporting_level",
+    ("mutable object with static or thread storage duration", "kernel/log.cc", "std::unique_ptr<std::ostream> log::stream = nullptr;"):
+        "definition of log::stream",
+    ("mutable object with static or thread storage duration", "kernel/gp/symbol.h", "static opcode_t opc_count_;"):
+        "process-wide opcode counter: names symbols in creation order – a second problem built in the same process is a "
+        "renaming (the reason in-process repetition of i_mep runs is excluded); two processes number alike",
+    ("mutable object with static or thread storage duration", "kernel/gp/symbol.cc", "opcode_t symbol::opc_count_(0);"):
+        "definition of symbol::opc_count_",
+    ("mutable object with static or thread storage duration", "kernel/cache.h", "extern void (*sched_callback)(int);"):
+        "VITA_VERIF hook (C15), null unless a harness installs it",
+    ("mutable object with static or thread storage duration", "kernel/cache.cc", "void (*verif_hook::sched_callback)(int) = nullptr;"):
+        "definition of the VITA_VERIF hook",
+    ("mutable object with static or thread storage duration", "kernel/random.h", "extern engine_t engine;"):
+        "THE engine of the property: every stochastic choice goes through it, random::seed() resets all of it",
+    ("mutable object with static or thread storage duration", "kernel/random.cc", "engine_t engine;"):
+        "definition of random::engine",
+    ("mutable object with static or thread storage duration", "kernel/gp/mep/i_mep.cc", "thread_local std::vector<std::byte> packed;"):
+        "scratch buffer of i_mep::pack(): cleared before every use, no value survives a call",
+    ("mutable object with static or thread storage duration", "kernel/gp/src/lambda_f.tcc", "extern std::map<std::string, build_func> factory_;"):
+        "registry of lambda builders keyed by class name: filled at start-up, ordered by string",
+    ("mutable object with static or thread storage duration", "kernel/gp/src/lambda_f.cc", "std::map<std::string, build_func> factory_;"):
+        "definition of the lambda builder registry",
+    ("mutable object with static or thread storage duration", "kernel/evaluator.tcc", "static random::engine_t e;"):
+        "test_evaluator (random flavour): re-seeded from its argument before every use (`e.seed(dist); return e()`), a "
+        "pure function of the argument; not used by any search",
+    ("mutable object with static or thread storage duration", "kernel/evolution.tcc", "static unsigned last_run(0);"):
+        "log_evolution(): decides whether a blank line separates runs in the statistics files – formatting of a log, "
+        "and the transcripts include those files",
+    ("pointer-keyed associative container", "kernel/analyzer.h",
+     "std::map<const symbol *, sym_counter, cmp_symbol_ptr> sym_counter_;"):
+        "ordered by cmp_symbol_ptr = opcode order, not by address",
+    ("randomness / time / process identity outside random::engine", "kernel/random.cc", "std::random_device rd;"):
+        "random::randomize(): the explicit request for an unpredictable seed; seed() afterwards restores determinism "
+        "(exercised by the `mixed` requests)",
+}
+# cppcoreguidelines-pro-type-member-init findings of today's tree (key: file, message) -> why harmless
+UNINIT_REVIEWED = {
+    ("kernel/cache.h", "constructor does not initialize these fields: seal"):
+        "cache::slot is value-initialised by std::vector<slot>(n) (zeroes `seal`); the implicit constructor is never "
+        "used for default-initialisation",
+    ("kernel/compatibility_patch.h", "uninitialized record type: 'tv'"): "both fields assigned on the next two lines",
+    ("kernel/gp/gene.h", "constructor does not initialize these fields: sym, par"):
+        "basic_gene(): placeholder elements of a genome matrix, overwritten before any read (C02 checks well-formedness)",
+    ("kernel/gp/gene.tcc", "constructor does not initialize these fields: par"):
+        "`par` is meaningful (and read, compared, saved) only when sym->parametric(); init_if_parametric() sets it then",
+    ("kernel/gp/mep/interpreter.h", "constructor does not initialize these fields: valid"):
+        "elem_ of the interpreter cache: matrix<elem_>(r, c) value-initialises (valid = false)",
+    ("kernel/individual.h", "constructor does not initialize these fields: age_"):
+        "individual() = default is always reached through value-initialisation (`: individual()` in every derived "
+        "constructor, `T()` elsewhere), which zeroes age_; `i_ga x;` would leave it indeterminate – no such use in src/",
+    ("utility/matrix.h", "constructor does not initialize these fields: cols_"):
+        "delegating constructor matrix() : matrix(0, 0) – cols_ is set by the delegate",
+    ("utility/matrix.tcc", "constructor does not initialize these fields: cols_"):
+        "delegating constructor: cols_ is set by matrix(rows, cols)",
+}
+
+
+def scan_tu():
+    d = os.path.join(C.BUILD, "c07_scan")
+    os.makedirs(d, exist_ok=True)
+    ccs = []
+    for sub in ("utility", "kernel"):
+        for dd, dn, fs in os.walk(os.path.join(C.REPO, "src", sub)):
+            dn.sort()
+            ccs += [os.path.relpath(os.path.join(dd, f), os.path.join(C.REPO, "src")) for f in sorted(fs)
+                    if f.endswith(".cc")]
+    # utility.cc defines explicit specialisations the kernel sources use: it must come first
+    ccs.sort(key=lambda f: (0 if f.startswith("utility/") else 1, f))
+    tu = os.path.join(d, "unity.cc")
+    txt = "".join('#include "%s"\n' % f for f in ccs) + '#include "%s"\n' % os.path.join(C.ROOT, "harness", "c07_run.cc")
+    if not os.path.exists(tu) or open(tu).read() != txt:
+        open(tu, "w").write(txt)
+    flags = ["--", "-std=c++17", "-w", "-DNDEBUG", "-D" + C.GUARD, "-I" + os.path.join(C.REPO, "src"),
+             "-isystem", os.path.join(C.REPO, "src", "third_party"), "-I" + os.path.join(C.ROOT, "harness")]
+    return d, tu, flags, len(ccs)
+
+
+def ast_scan():
+    """-> (hits, uninit, error)"""
+    d, tu, flags, nfiles = scan_tu()
+    src_root = os.path.join(C.REPO, "src") + os.sep
+    q = os.path.join(d, "queries.txt")
+    with open(q, "w") as f:
+        f.write("set output diag\nset bind-root true\nset traversal AsIs\n")
+        for _, _, m in AST_QUERIES:
+            f.write("match " + m + "\n")
+    try:
+        rc, so, se = C.sh(["clang-query-14", "-f", q, tu] + flags, timeout=1200)
+    except Exception as e:
+        return [], [], "clang-query did not finish: %r" % e
+    if rc != 0 or " error: " in se or len(re.findall(r"^\d+ match(?:es)?\.$", so, re.M)) != len(AST_QUERIES):
+        return [], [], "clang-query failed on the scan translation unit (rc=%d): %s" % (rc, (se + so)[-800:])
+    hits, qi, lines = [], 0, so.splitlines()
+    seen = set()
+    for i, ln in enumerate(lines):
+        if re.match(r"^\d+ match(?:es)?\.$", ln):
+            qi += 1
+            continue
+        m = re.match(r"^(/.*?):(\d+):(\d+): note: \"root\" binds here", ln)
+        if m and qi < len(AST_QUERIES):
+            tag, sev, _ = AST_QUERIES[qi]
+            path = m.group(1)
+            rel = path[len(src_root):] if path.startswith(src_root) else path
+            text = norm_ws(lines[i + 1]) if i + 1 < len(lines) else ""
+            key = (tag, rel, text)
+            if (key, int(m.group(2))) in seen:      # one declaration, several template instantiations
+                continue
+            seen.add((key, int(m.group(2))))
+            hits.append({"what": tag, "severity": sev, "file": rel, "line": int(m.group(2)), "text": text[:160],
+                         "reviewed": AST_REVIEWED.get(key)})
+    try:
+        rc, so, se = C.sh(["clang-tidy-14", "-checks=-*,cppcoreguidelines-pro-type-member-init",
+                           "-header-filter=.*/src/(kernel|utility)/.*", tu] + flags, timeout=1200)
+    except Exception as e:
+        return hits, [], "clang-tidy did not finish: %r" % e
+    uninit, useen = [], set()
+    for m in re.finditer(r"^(/.*?):(\d+):\d+: warning: (.*?) \[cppcoreguidelines-pro-type-member-init\]", so, re.M):
+        path = m.group(1)
+        if not path.startswith(src_root):
+            continue
+        key = (path[len(src_root):], m.group(3))
+        if (key, m.group(2)) in useen:
+            continue
+        useen.add((key, m.group(2)))
+        uninit.append({"file": key[0], "line": int(m.group(2)), "message": key[1], "reviewed": UNINIT_REVIEWED.get(key)})
+    return hits, uninit, None
 
 
 # ---- (c2) wall-clock / timer sites -----------------------------------------------------------------
@@ -237,127 +666,373 @@ def clock_scan():
 
 
 # ---- (b) whole runs -----------------------------------------------------------------------------
+# configuration = <kind>-<strategy>[-<validation>]; see harness/c07_run.cc
+CONFIGS = ["mep-std", "mep-alps", "mep-std-dss", "mep-std-holdout", "mep-alps-dss", "cls-std", "cls-alps",
+           "team-std", "team-alps", "team-std-holdout", "ga-std", "ga-alps", "de"]
+REPEATABLE = {"ga-std", "ga-alps", "de"}     # i_mep dumps contain opcodes, which are numbered by a
+                                             # process-wide counter: an in-process second problem is renamed
+STALL_MS = 2300
+WORK = os.path.join(C.BUILD, "c07_work")
+
+
+def gen_params(rng, cfg, inds, gens):
+    """A random point of the environment-parameter grid: every parameter that enables a code path of
+    search / evolution / the strategies may be present (with a value that keeps the environment valid)."""
+    kind = cfg.split("-")[0]
+    p = {}
+
+    def maybe(k, vals, prob=0.4):
+        if rng.chance(prob):
+            p[k] = rng.choice(vals)
+
+    maybe("brood", [1, 2, 3, 4, 6], 0.6)
+    maybe("cache", [0, 4, 8, 12, 16], 0.5)
+    maybe("elit", [0, 1])
+    maybe("pmut", [0, 0.02, 0.1, 0.5, 1.0])
+    maybe("pcross", [0, 0.3, 0.9, 1.0])
+    maybe("tourn", [t for t in (2, 3, 5, 8) if t <= inds])
+    maybe("mate", [2, 5, 20, 100])
+    maybe("stuck", [1, 2, 5, 50])
+    maybe("runs", [1, 2, 3], 0.5)
+    if kind != "de":
+        maybe("layers", [1, 2, 3, 5])
+        maybe("minind", [2, 3])
+    if "alps" in cfg:
+        maybe("agegap", [1, 2, 3, 5, 20], 0.7)
+        maybe("psame", [0, 0.5, 0.75, 1.0])
+        if rng.chance(0.5):               # layers growing: small age gap, room for new layers
+            p["agegap"] = rng.choice([1, 2])
+            p["layers"] = rng.choice([3, 4, 6])
+    if kind in ("mep", "cls", "team"):
+        maybe("code", [8, 16, 24, 40])
+        if "code" in p:
+            maybe("patch", [x for x in (1, 2, 3, 7) if x < p["code"]])
+        maybe("thr", [-1000, -5], 0.15)
+        if kind == "cls":
+            maybe("eva", ["gaussian", "dyn_slot"], 0.6)
+        else:
+            maybe("eva", ["mae", "rmae", "mse", "count"], 0.5)
+    if kind == "team":
+        maybe("team", [1, 2, 3, 4], 0.6)
+    if "dss" in cfg:
+        maybe("dssgap", [1, 2, 3], 0.6)
+    if "holdout" in cfg:
+        maybe("valpct", [10, 30, 50], 0.6)
+    if kind == "de" and rng.chance(0.4):
+        p["dewlo"], p["dewhi"] = rng.choice([(0.5, 1.0), (0.1, 0.2), (0.9, 0.9001), (0.0, 2.0)])
+    return p
+
+
+def params_token(p, ser=None, logs=None):
+    items = ["%s=%s" % (k, p[k]) for k in sorted(p)]
+    if ser:
+        items.append("ser=" + ser)
+    if logs:
+        items.append("logs=" + logs)
+    return ",".join(items)
+
+
+class Proc:
+    """one process of the plan; `chain` = processes that must run one after the other (cold, warm, …)"""
+
+    def __init__(self, key, build, exe, noise, mode, env, params, role, ser=None, logs=None):
+        self.key, self.build, self.exe, self.noise, self.mode, self.env = key, build, exe, noise, mode, env
+        self.params, self.role, self.ser, self.logs = params, role, ser, logs
+        self.rc = self.out = self.err = None
+        self.timed_out = False
+
+    def argv(self, ser=None, logs=None):
+        cfg, seed, gens, inds, _ = self.key
+        return [cfg, seed, gens, inds, self.noise, self.mode,
+                params_token(self.params, ser or self.ser, logs or self.logs)]
+
+    def describe(self):
+        """command line with the scratch paths as placeholders (the replay file recreates them)"""
+        return " ".join(str(x) for x in self.argv("@SER@" if self.ser else None, "@LOGS@" if self.logs else None))
+
+    def step(self):
+        return {"args": self.describe(), "env": self.env, "build": self.build, "role": self.role}
+
+
+def run_proc(p, timeout):
+    if p.logs:
+        os.makedirs(p.logs, exist_ok=True)
+    try:
+        p.rc, p.out, p.err = C.run_harness(p.exe, p.argv(), timeout=timeout, env=p.env)
+        p.timed_out = False
+    except Exception as e:  # subprocess.TimeoutExpired
+        p.rc, p.out, p.err, p.timed_out = 124, "", repr(e)[:300], True
+    return p
+
+
+def first_diff(x, y):
+    a, b = x.splitlines(), y.splitlines()
+    i = next((i for i, (u, v) in enumerate(zip(a, b)) if u != v), min(len(a), len(b)))
+    return i, (a[i][:300] if i < len(a) else "<end>"), (b[i][:300] if i < len(b) else "<end>")
+
+
 def transcripts(chk, rng, broken):
+    import shutil
     exe = C.build_harness("c07_run", "plain")
     exes = [("plain", exe)]
-    if chk.tier != "quick":
+    quick = chk.tier == "quick"
+    if not quick:
         exes.append(("asan", C.build_harness("c07_run", "asan")))
-    nseeds = 5 if chk.tier == "quick" else 30
-    jobs = []
+    nseeds = 3 if quick else 10
+    work = os.path.join(WORK, "%d-%d" % (os.getpid(), chk.seed))
+    shutil.rmtree(work, ignore_errors=True)
+    os.makedirs(work)
+    counter = [0]
+
+    def scratch(name):
+        counter[0] += 1
+        return os.path.join(work, "%s%d" % (name, counter[0]))
+
+    chains, nstall, ncold = [], 0, 0
+    seen_cfg = {}
+    stall_cfgs = {"mep-std": 1, "mep-alps": 1, "ga-alps": 1} if quick else {c: 2 for c in CONFIGS}
     for cfg in CONFIGS:
         for _ in range(nseeds):
             seed = rng.below(1 << 31) if rng.below(4) else rng.choice([0, 1])
-            gens = rng.between(3, 8) if chk.tier == "quick" else rng.between(4, 25)
-            inds = rng.between(10, 30) if chk.tier == "quick" else rng.between(10, 80)
-            jobs.append((cfg, seed, gens, inds))
+            gens = rng.between(3, 8) if quick else rng.between(4, 20)
+            inds = rng.between(10, 30) if quick else rng.between(10, 60)
+            params = gen_params(rng, cfg, inds, gens)
+            do_stall = seen_cfg.get(cfg, 0) < stall_cfgs.get(cfg, 0)
+            seen_cfg[cfg] = seen_cfg.get(cfg, 0) + 1
+            if do_stall:                  # generations must follow the stall: no early stop
+                params.pop("stuck", None)
+                params.pop("thr", None)
+            key = (cfg, seed, gens, inds, params_token(params))
+            with_logs = rng.chance(0.3)
+            if with_logs:
+                key = key[:4] + (key[4] + ",logs=*",)
 
-    def variants(cfg):
-        v = [([0] + (["repeat"] if cfg in REPEATABLE else []), {}),
-             ([rng.next() | 1], {"MALLOC_PERTURB_": str(rng.between(1, 255)), "VERIF_PAD": "x" * rng.between(1, 5000)}),
-             ([rng.next() | 1], {"MALLOC_PERTURB_": str(rng.between(1, 255)), "MALLOC_ARENA_MAX": "1",
-                                 "VERIF_PAD2": "y" * rng.between(1, 9000), "LC_ALL": "C"})]
-        if chk.tier != "quick":
-            v += [([rng.next() | 1], {"MALLOC_MMAP_THRESHOLD_": "64", "VERIF_PAD": "z" * rng.between(1, 20000)}),
-                  ([rng.next() | 1], {"MALLOC_TOP_PAD_": "1048576"})]
-        return v
+            def mk(build, bexe, noise, mode, env, role, ser=None):
+                return Proc(key, build, bexe, noise, mode, env, params, role, ser=ser,
+                            logs=scratch("logs") if with_logs else None)
 
-    # timing perturbation: a process that stalls > 2 s (once, at a seed-dependent point) must print the
-    # transcript of the processes running at full speed.  evolution::run has a branch taken when more
-    # than 2 s passed since the last progress message; std_es / ALPS decisions read stats_.az.
-    STALL_MS = 2300
-    quick = chk.tier == "quick"
-    stall_cfgs = {"mep-std": 1, "mep-alps": 1, "ga-alps": 1} if quick else {c: 3 for c in CONFIGS}
-    seen_cfg = {}
-    plan = []
-    nstall = 0
-    for cfg, seed, gens, inds in jobs:
-        for bname, bexe in exes:
-            for extra, env in variants(cfg):
-                plan.append((cfg, seed, gens, inds, bname, bexe, extra, env))
-        k = seen_cfg.get(cfg, 0)
-        seen_cfg[cfg] = k + 1
-        if k < stall_cfgs.get(cfg, 0):
-            # after the n-th callback of the first search.run (n <= gens-2: generations follow the stall)
-            n = rng.between(0, max(1, gens - 1))
-            plan.append((cfg, seed, gens, inds, "plain", exe, [0, "stall-cb:%d:%d" % (n, STALL_MS)], {}))
-            nstall += 1
-            if cfg in REPEATABLE and (not quick or cfg == "ga-alps"):
-                # in the middle of a generation: inside the (inds + m)-th fitness evaluation
-                m = inds + rng.between(1, inds)
-                plan.append((cfg, seed, gens, inds, "plain", exe, [0, "stall-eval:%d:%d" % (m, STALL_MS)], {}))
+            for bname, bexe in exes:
+                # (1) same arguments, different heap layouts / allocator behaviour / environment sizes
+                chains.append([mk(bname, bexe, 0, "repeat" if cfg in REPEATABLE and not with_logs else "-", {},
+                                  "reference")])
+                chains.append([mk(bname, bexe, rng.next() | 1, "-",
+                                  {"MALLOC_PERTURB_": str(rng.between(1, 255)), "VERIF_PAD": "x" * rng.between(1, 5000)},
+                                  "heap-noise")])
+                if not quick:
+                    chains.append([mk(bname, bexe, rng.next() | 1, "-",
+                                      {"MALLOC_PERTURB_": str(rng.between(1, 255)), "MALLOC_ARENA_MAX": "1",
+                                       "VERIF_PAD2": "y" * rng.between(1, 9000), "LC_ALL": "C"}, "heap-noise")])
+                    chains.append([mk(bname, bexe, rng.next() | 1, "-",
+                                      {"MALLOC_MMAP_THRESHOLD_": "64", "VERIF_PAD": "z" * rng.between(1, 20000)},
+                                      "heap-noise")])
+            # (2) COLD execution (serialization file named, absent) then WARM executions (the file the
+            #     previous execution left behind): the cache file is not among the things results may depend on
+            if params.get("cache", 16) > 0:
+                ser = scratch("ser") + ".txt"
+                chain = [mk("plain", exe, 0, "-", {}, "cold", ser=ser), mk("plain", exe, 0, "-", {}, "warm", ser=ser)]
+                if not quick:
+                    chain.append(mk("plain", exe, rng.next() | 1, "-", {"MALLOC_PERTURB_": "77"}, "warm-2", ser=ser))
+                chains.append(chain)
+                ncold += 1
+            # (3) timing perturbation
+            if do_stall:
+                n = rng.between(0, max(1, gens - 1))
+                chains.append([mk("plain", exe, 0, "stall-cb:%d:%d" % (n, STALL_MS), {}, "stalled")])
                 nstall += 1
+                if cfg in REPEATABLE and (not quick or cfg == "ga-alps"):
+                    m = rng.between(1, max(2, inds // 2))
+                    chains.append([mk("plain", exe, 0, "stall-eval:%d:%d" % (m, STALL_MS), {}, "stalled")])
+                    nstall += 1
 
-    def one(p):
-        cfg, seed, gens, inds, bname, bexe, extra, env = p
-        try:
-            rc, so, se = C.run_harness(bexe, [cfg, seed, gens, inds] + extra, timeout=600, env=env)
-        except Exception as e:  # timeout
-            return p, 124, "", repr(e)
-        return p, rc, so, se
+    def run_chain(chain):
+        for p in chain:
+            run_proc(p, 300)
+        return chain
 
-    with cf.ThreadPoolExecutor(min(8, C.NPROC)) as ex:     # stalled processes mostly sleep
-        res = list(ex.map(one, plan))
-
+    with cf.ThreadPoolExecutor(C.NPROC) as ex:
+        list(ex.map(run_chain, chains))
+    # a time-out is never a verdict: once more, alone, with a generous limit; then it is only a note
+    ntimeout = 0
+    for chain in chains:
+        if any(p.timed_out for p in chain):
+            ntimeout += 1
+            for p in chain:
+                if p.ser and os.path.exists(p.ser):
+                    os.remove(p.ser)
+                    break
+            for p in chain:
+                run_proc(p, 1800)
     groups = {}
-    for (cfg, seed, gens, inds, bname, bexe, extra, env), rc, so, se in res:
-        key = (cfg, seed, gens, inds)
-        args = "%s %d %d %d %s" % (cfg, seed, gens, inds, " ".join(map(str, extra)))
-        chk.count("run:" + cfg)
-        if rc != 0:
-            chk.violation("whole run `%s` (%s build) ended with rc=%d\n%s" % (args, bname, rc, se[-1500:]),
-                          {"run": args, "build": bname, "env": env},
-                          tags={"kind": "run", "config": cfg, "clause": "died"})
+    for chain in chains:
+        for i, p in enumerate(chain):
+            p.chain, p.pos = chain, i
+            chk.count("run:" + p.key[0])
+            chk.count("role:" + p.role)
+            chk.seen(("run", p.key, p.build, p.role, p.noise, tuple(sorted(p.env))))
+            groups.setdefault(p.key, []).append(p)
+
+    def replay_of(a, b):
+        """steps that reproduce processes a and b (with the executions that must precede them)"""
+        if a.ser and a.chain is b.chain:
+            return {"steps": [dict(r.step(), chain=1) for r in b.chain[:max(a.pos, b.pos) + 1]],
+                    "compare": [a.pos, b.pos]}
+        steps = []
+        for q in (a, b):
+            pre = q.chain[:q.pos + 1] if q.ser else [q]
+            for r in pre:
+                st = r.step()
+                st["chain"] = id(q.chain) % 100000 if q.ser else None
+                steps.append(st)
+        ia = len(a.chain[:a.pos + 1]) - 1 if a.ser else 0
+        return {"steps": steps, "compare": [ia, len(steps) - 1]}
+
+    ngen = nwarm_loaded = 0
+    neffective = [0]
+    for key, procs in groups.items():
+        cfg = key[0]
+        live = []
+        for p in procs:
+            if p.timed_out:
+                chk.notes.append("whole run `%s` did not finish within the time limit twice – inconclusive, no verdict "
+                                 "drawn from it" % p.describe())
+                chk.count("run-timeout")
+                continue
+            if p.role.startswith("warm"):
+                if "SERIALIZATION-FILE present" in (p.err or ""):
+                    nwarm_loaded += 1
+                else:
+                    broken.append("warm execution `%s` did not find the serialization file of the previous one (%s)"
+                                  % (p.describe(), (p.err or "")[-200:]))
+            if p.rc == 0 and "STALL-NOT-REACHED" in p.out:
+                chk.notes.append("timing perturbation did not happen in `%s` (stall point beyond the end of the run)"
+                                 % p.describe())
+                chk.count("stall-not-reached")
+                p.out = p.out.replace("STALL-NOT-REACHED\n", "")
+            elif p.role == "stalled" and p.rc == 0:
+                chk.count("stalled_process:" + cfg)
+                neffective[0] += 1
+            live.append(p)
+        if not live:
             continue
-        if "STALL-NOT-REACHED" in so:
-            broken.append("timing perturbation did not happen in `%s` (stall point beyond the end of the run)" % args)
-            so = so.replace("STALL-NOT-REACHED\n", "")
-        if any(str(x).startswith("stall-") for x in extra):
-            chk.count("stalled_process:" + cfg)
-        main, _, rep = so.partition("REPEAT ")
-        if rep and not rep.startswith("same"):
-            a, b = main.splitlines(), rep.split("SECOND\n", 1)[-1].splitlines()
-            first = next((i for i, (x, y) in enumerate(zip(a, b)) if x != y), min(len(a), len(b)))
-            chk.violation("same seed, two runs in ONE process differ: `%s` – first differing transcript line %d:\n"
-                          "  1st: %s\n  2nd: %s" % (args, first, a[first][:300] if first < len(a) else "<end>",
-                                                   b[first][:300] if first < len(b) else "<end>"),
-                          {"run": args + " repeat", "build": bname},
-                          tags={"kind": "run", "config": cfg, "clause": "in-process-repeat"})
-        if "GEN " not in main or "FINAL" not in main:
-            broken.append("whole-run harness printed no transcript for `%s`: %s" % (args, (so + se)[-300:]))
+        # processes that died: a violation of THIS property only when the executions disagree about dying
+        dead = [p for p in live if p.rc != 0]
+        if dead and len(dead) == len(live) and len({p.rc for p in dead}) == 1:
+            chk.notes.append("configuration `%s` ends with rc=%d in every execution (deterministic failure – not a "
+                             "matter of this property): %s" % (dead[0].describe(), dead[0].rc,
+                                                              (dead[0].err or "")[-300:].replace("\n", " | ")))
+            chk.count("run-fails-deterministically:" + cfg)
             continue
-        groups.setdefault(key, []).append((bname, args, env, main))
-        chk.seen(("run", key, bname, tuple(sorted(env))))
-    ngen = 0
-    for key, runs in groups.items():
-        ref = runs[0]
-        ngen += ref[3].count("GEN ")
-        for r in runs[1:]:
-            if r[3] != ref[3]:
-                a, b = ref[3].splitlines(), r[3].splitlines()
-                first = next((i for i, (x, y) in enumerate(zip(a, b)) if x != y), min(len(a), len(b)))
-                chk.violation("same seed, two PROCESSES print different transcripts%s: `%s` (%s) vs `%s` (%s, env %s) – "
-                              "first differing line %d:\n  A: %s\n  B: %s"
-                              % (" (B stalls once for > 2 s: the result depends on the wall clock)"
-                                 if "stall-" in r[1] else "", ref[1], ref[0], r[1], r[0], sorted(r[2]), first,
-                                 a[first][:300] if first < len(a) else "<end>",
-                                 b[first][:300] if first < len(b) else "<end>"),
-                              {"run_a": ref[1], "run_b": r[1], "env_b": r[2], "builds": [ref[0], r[0]]},
-                              tags={"kind": "run", "config": key[0],
-                                    "clause": "timing" if "stall-" in r[1] else "two-processes"})
+        ref = next(p for p in live if p.rc == 0)
+        for p in dead:
+            chk.violation("same seed, problem, data and parameters: `%s` (%s, %s) ends with rc=%d while `%s` (%s, %s) "
+                          "completes\n%s" % (p.describe(), p.build, p.role, p.rc, ref.describe(), ref.build, ref.role,
+                                             (p.err or "")[-1200:]),
+                          replay_of(ref, p), tags={"kind": "run", "config": cfg, "clause": "died"})
+        ok = [p for p in live if p.rc == 0]
+        mains = {}
+        for p in ok:
+            main, _, rep = p.out.partition("REPEAT ")
+            mains[id(p)] = main
+            if rep and not rep.startswith("same"):
+                i, x, y = first_diff(main, rep.split("SECOND\n", 1)[-1])
+                chk.violation("same seed, two runs in ONE process differ: `%s` – first differing transcript line %d:\n"
+                              "  1st: %s\n  2nd: %s" % (p.describe(), i, x, y),
+                              {"steps": [p.step()], "compare": [0, 0]},
+                              tags={"kind": "run", "config": cfg, "clause": "in-process-repeat"})
+            if "GEN " not in main or "FINAL" not in main:
+                broken.append("whole-run harness printed no transcript for `%s`: %s"
+                              % (p.describe(), (p.out + p.err)[-300:]))
+        ok = [p for p in ok if "GEN " in mains[id(p)] and "FINAL" in mains[id(p)]]
+        if not ok:
+            continue
+        ref = ok[0]
+        ngen += mains[id(ref)].count("GEN ")
+        for p in ok[1:]:
+            if mains[id(p)] != mains[id(ref)]:
+                i, x, y = first_diff(mains[id(ref)], mains[id(p)])
+                why = {"stalled": " (B stalls once for > 2 s: the result depends on the wall clock)",
+                       "warm": " (B is a WARM execution: it starts with the serialization file the previous execution "
+                               "left behind – the result depends on a cache file)",
+                       "warm-2": " (B is a WARM execution: it starts with the serialization file the previous "
+                                 "execution left behind – the result depends on a cache file)",
+                       "cold": " (B names a serialization file that does not exist yet)"}.get(p.role, "")
+                chk.violation("same seed, problem, data and parameters, two PROCESSES print different transcripts%s:\n"
+                              "  A: `%s` (%s, %s)\n  B: `%s` (%s, %s, env %s)\n  first differing line %d:\n  A: %s\n  B: %s"
+                              % (why, ref.describe(), ref.build, ref.role, p.describe(), p.build, p.role,
+                                 sorted(p.env), i, x, y),
+                              replay_of(ref, p),
+                              tags={"kind": "run", "config": cfg,
+                                    "clause": {"stalled": "timing", "warm": "warm-cache", "warm-2": "warm-cache",
+                                               "cold": "serialization-file"}.get(p.role, "two-processes")})
                 break
-    chk.cov["timing_perturbation"] = {"stalled_processes": nstall, "stall_ms": STALL_MS,
+    if nstall and not neffective[0]:
+        broken.append("no timing perturbation took place (%d stalled processes planned, none reached its stall point)"
+                      % nstall)
+    chk.cov["timing_perturbation"] = {"stalled_processes": nstall, "effective": neffective[0], "stall_ms": STALL_MS,
                                       "configurations": sorted(stall_cfgs)}
-    chk.cov["whole_runs"] = {"configurations": CONFIGS, "processes": len(res), "groups": len(groups),
-                             "generations_compared": ngen, "builds": [b for b, _ in exes]}
+    chk.cov["cold_warm"] = {"chains": ncold, "warm_executions_that_loaded_the_previous_cache": nwarm_loaded}
+    chk.cov["whole_runs"] = {"configurations": CONFIGS, "processes": sum(len(c) for c in chains),
+                             "groups": len(groups), "generations_compared": ngen, "builds": [b for b, _ in exes],
+                             "chains_rerun_after_a_timeout": ntimeout}
+    params_seen = {}
+    for key in groups:
+        for kv in key[4].split(","):
+            if kv:
+                params_seen[kv.split("=")[0]] = params_seen.get(kv.split("=")[0], 0) + 1
+    chk.cov["parameter_grid"] = params_seen
     if groups:
         k = sorted(groups)[0]
-        chk.sample({"run": groups[k][0][1], "transcript_bytes": len(groups[k][0][3]),
+        chk.sample({"run": groups[k][0].describe(), "transcript_bytes": len(groups[k][0].out or ""),
                     "identical_processes": len(groups[k])})
+    shutil.rmtree(work, ignore_errors=True)
+
+
+def replay_whole_run(chk, r):
+    """re-execute the steps of a whole-run finding in a fresh scratch directory and compare the two marked"""
+    import shutil
+    work = os.path.join(WORK, "replay-%d" % os.getpid())
+    shutil.rmtree(work, ignore_errors=True)
+    os.makedirs(work)
+    outs, sers, nlogs = [], {}, 0
+    for st in r["steps"]:
+        args = st["args"]
+        if "@SER@" in args:
+            args = args.replace("@SER@", sers.setdefault(st.get("chain"), os.path.join(work, "ser%d.txt" % len(sers))))
+        if "@LOGS@" in args:
+            nlogs += 1
+            d = os.path.join(work, "logs%d" % nlogs)
+            os.makedirs(d)
+            args = args.replace("@LOGS@", d)
+        bexe = C.build_harness("c07_run", st.get("build", "plain"))
+        try:
+            rc, so, se = C.run_harness(bexe, args.split(" "), timeout=1800, env=st.get("env") or None)
+        except Exception as e:
+            rc, so, se = 124, "", repr(e)
+        outs.append((rc, so.replace("STALL-NOT-REACHED\n", "")))
+        chk.seen(("replay", st["args"]))
+    i, j = r["compare"]
+    bad = outs[i][0] != outs[j][0] or "REPEAT different" in outs[i][1] or \
+        outs[i][1].partition("REPEAT ")[0] != outs[j][1].partition("REPEAT ")[0]
+    shutil.rmtree(work, ignore_errors=True)
+    if bad:
+        chk.violation("replayed whole runs still differ / fail: %s" % [s["args"] for s in r["steps"]], r,
+                      tags={"kind": "run", "clause": "replay"})
 
 
 def run(chk, replay=None):
+    saved = C.NPROC
+    C.NPROC = JOBS
+    try:
+        return run_(chk, replay)
+    finally:
+        C.NPROC = saved
+
+
+def run_(chk, replay=None):
     rng = C.SplitMix(chk.seed)
     broken = []
+    scan_pool = cf.ThreadPoolExecutor(1)
+    scan_job = None if replay else scan_pool.submit(ast_scan)
 
     # ---- translator + proofs ----------------------------------------------------------------
     gen = os.path.join(C.LEAN, "Vita", "C07", "Gen.lean")
@@ -366,8 +1041,13 @@ def run(chk, replay=None):
         info, changed = translate_rng.emit(gen)
         chk.cov["translated"] = info
         chk.cov["gen_changed_vs_committed"] = bool(changed)
+        info2, changed2 = translate_rng.emit_code(os.path.join(C.LEAN, "Vita", "C07", "GenCode.lean"),
+                                                  info["state_size"])
+        chk.cov["translated_code"] = info2
+        chk.cov["gencode_changed_vs_committed"] = bool(changed2)
     except Refuse as e:
-        broken.append("translator tools/translate_rng.py refuses the current xoshiro256ss.cc: %s" % e)
+        broken.append("translator tools/translate_rng.py refuses the current xoshiro256ss.{h,cc}: %s" % e)
+        info = None
     drv_ok = False
     if info is not None:
         drv_ok, out = C.lake_build(["c07_driver"])
@@ -376,7 +1056,8 @@ def run(chk, replay=None):
         ok, msg = chk.prove("Vita.C07.Props", ["Vita.C07.Props"])
         if not ok:
             broken.append("theorems of Vita.C07.Props no longer check against the generated operand lists "
-                          "(write=%s read=%s): %s" % (info["write"], info["read"], msg))
+                          "/ the translated code of the generator (write=%s read=%s): %s"
+                          % (info["write"], info["read"], msg))
 
     # ---- (a) differential on the generator ---------------------------------------------------
     exe = C.build_harness("c07_rng", "asan", extra_flags=["-fsanitize-recover=undefined"])
@@ -389,21 +1070,10 @@ def run(chk, replay=None):
     if replay:
         r = json.load(open(replay))["replay"]
         only_line = r.get("line")
-        runs = [x for x in (r.get("run_a"), r.get("run_b"), r.get("run")) if x]
-        if runs:                       # replay of a whole-run finding: the two processes, nothing else
-            outs = []
-            for k, a in enumerate(runs):
-                bexe = C.build_harness("c07_run", (r.get("builds") or [r.get("build", "plain")] * 2)[min(k, 1)])
-                rc, so, se = C.run_harness(bexe, a.split(), timeout=600, env=r.get("env_b") if k == 1 else None)
-                outs.append((rc, so))
-                chk.seen(("replay", a))
-            bad = any(rc != 0 for rc, _ in outs) or "REPEAT different" in outs[0][1] or \
-                (len(outs) == 2 and outs[0][1].partition("REPEAT ")[0] != outs[1][1].partition("REPEAT ")[0])
-            if bad:
-                chk.violation("replayed whole runs still differ / fail: %s" % runs, r,
-                              tags={"kind": "run", "clause": "replay"})
+        if r.get("steps"):             # replay of a whole-run finding: the processes involved, nothing else
+            replay_whole_run(chk, r)
             return chk.finish(level="proof", checker_cmd="(replay of a whole-run finding)", rule="replay")
-    lines = [only_line] if only_line else corpus + gen_lines(rng, chk.tier)
+    lines = [only_line] if only_line else corpus + gen_lines(rng, chk.tier) + gen_cfg_lines(rng, chk.tier)
 
     cpp, deaths = C.run_lines(exe, lines, env={"UBSAN_OPTIONS": "print_stacktrace=0:halt_on_error=0"}, timeout=900)
     died = {}
@@ -411,6 +1081,9 @@ def run(chk, replay=None):
         died[idx] = (rc, se)
     dl = [("stream " + ln.split(" ", 1)[1]) if ln.startswith("vstream ") else ln for ln in lines]
     dl = ["gen" if ln.startswith("mixed ") else ln for ln in dl]
+    # the translated seed / operator() are interpreted on the short streams as well
+    gidx = [i for i, ln in enumerate(lines) if ln.startswith("stream ") and int(ln.split()[2]) <= 1000]
+    dl += ["g" + lines[i] for i in gidx]
     lean = C.run_driver("c07_driver", dl) if drv_ok else None
 
     found, ndis = [], 0
@@ -436,12 +1109,45 @@ def run(chk, replay=None):
                 found.append((len(ln), "`%s`: a state written with operator<< and read back with operator>> does "
                               "not continue the same sequence (%s)" % (ln, c), {"line": ln, "cpp": c},
                               {"kind": op, "clause": c.split()[0]}))
-        if op in ("sup", "between", "mixed") and ("nondet" in c or "range!" in c):
+        if op == "betd":
+            m = re.search(r"lo=(\d+) eq=(\d+) hi=(\d+)", c)
+            if m:
+                lo, eq, hi = map(int, m.groups())
+                chk.count("betd:draws-equal-to-sup", eq)
+                chk.count("betd:draws-above-sup", hi)
+                if lo:
+                    found.append((len(ln), "`%s`: random::between<double> returned %d value(s) below `min`" % (ln, lo),
+                                  {"line": ln, "cpp": c}, {"kind": op, "clause": "below-min"}))
+        if op in ("sup", "between", "mixed", "supu", "betu64", "inr", "elem", "ring", "betd", "bool") and \
+                ("nondet" in c or "range!" in c):
             found.append((len(ln), "`%s`: %s" % (ln, "re-seeding with the same seed gives different draws in the "
                           "same process" if "nondet" in c else "a draw left the requested range"),
                           {"line": ln, "cpp": c}, {"kind": op, "clause": "nondet" if "nondet" in c else "range"}))
+        if op == "geq":
+            chk.count("geq:" + c)
+            if c not in ("equal same4", "different diff4"):
+                found.append((len(ln), "`%s`: operator== answers `%s` but the next four numbers are %s (or != is not "
+                              "its negation): equality of engines is not equality of their future streams"
+                              % (ln, c.split()[0], "the same" if "same4" in c else "different"),
+                              {"line": ln, "cpp": c}, {"kind": op, "clause": c}))
         if op == "load":
             chk.count("load:" + c.split()[0])
+        if op == "cfgload":
+            chk.count("cfgload:" + c.split()[0])
+        if op == "cfgrt":
+            cls, v = cfg_class(cfg_parse(ln.split()[6])), c.split()[0]
+            chk.count("cfgrt:%s:%s" % (cls, v))
+            if cls == "demanded" and v != "same":
+                try:
+                    txt = bytes.fromhex(c.split()[-1]).decode("latin1")
+                except ValueError:
+                    txt = c.split()[-1]
+                found.append((len(ln), "`%s`: a state written with operator<< to a stream (configuration %s: %s) and "
+                              "read back with operator>> from the SAME stream does not continue the same sequence "
+                              "(%s; text written: %r; words read back: %s)"
+                              % (ln, ln.split()[6], cfg_words(cfg_parse(ln.split()[6])), v, txt[:120],
+                                 " ".join(c.split()[1:5])),
+                              {"line": ln, "cpp": c}, {"kind": op, "clause": v}))
         # model vs code
         if lean is not None and op != "mixed" and i < len(lean):
             l = lean[i]
@@ -452,6 +1158,15 @@ def run(chk, replay=None):
                     broken.append("model and code disagree on `%s`: model `%s`, code `%s`" % (ln, l[:200], c[:200]))
         if i % 97 == 0:
             chk.sample({"line": ln, "cpp": c[:160], "model": (lean[i][:160] if lean and i < len(lean) else None)})
+    if lean is not None:
+        for k, i in enumerate(gidx):
+            j = len(lines) + k
+            chk.count("op:gstream")
+            if j < len(lean) and i < len(cpp) and lean[j] != cpp[i]:
+                ndis += 1
+                if ndis <= 5:
+                    broken.append("translated code and compiled code disagree on `%s`: interpreting the translated "
+                                  "seed / operator() gives `%s`, the engine `%s`" % (lines[i], lean[j][:200], cpp[i][:200]))
     chk.cov["model_vs_code_disagreements"] = ndis
     for _, what, rep, tags in sorted(found, key=lambda x: (x[0], x[1])):
         chk.violation(what, rep, tags=tags)
@@ -468,6 +1183,26 @@ def run(chk, replay=None):
                 broken.append(msg + " – a source of randomness outside random::engine")
             else:
                 chk.notes.append(msg + " – potential address dependence; relying on the transcript comparison")
+        hits2, uninit, err = scan_job.result()
+        chk.cov["ast_scan"] = hits2
+        chk.cov["uninitialised_members_clang_tidy"] = uninit
+        if err:
+            broken.append("AST scan of src/kernel, src/utility did not run: " + err)
+        for h in hits2:
+            chk.count("ast-scan:" + h["what"])
+            if not h["reviewed"]:
+                msg = "AST scan: %s at src/%s:%d (`%s`) is not on the reviewed list (checks/c07.py AST_REVIEWED)" % (
+                    h["what"], h["file"], h["line"], h["text"])
+                if h["severity"] == "hard":
+                    broken.append(msg + " – a possible source of run-to-run differences that no transcript comparison "
+                                  "is known to cover")
+                else:
+                    chk.notes.append(msg)
+        for u in uninit:
+            if not u["reviewed"]:
+                chk.notes.append("clang-tidy: src/%s:%d %s – not on the reviewed list (an uninitialised member read by the "
+                                 "evolution would make runs differ; relying on the MALLOC_PERTURB_ transcripts)"
+                                 % (u["file"], u["line"], u["message"]))
         sites, blocks = clock_scan()
         chk.cov["clock_sites"] = sites
         chk.cov["clock_controlled_code"] = blocks
